@@ -3,4 +3,6 @@ pub mod envdrive;
 pub mod gen;
 pub mod obs;
 pub mod proto;
+pub mod shapes;
+pub mod shapes_gen;
 pub mod sim;
